@@ -249,3 +249,40 @@ func TestGovcReplayAuthorizerOptions(t *testing.T) {
 	}
 	fmt.Println("no failing input found")
 }
+
+// TestGovcReplayResetLeak: C13 — after Reset an authorizer must behave like a
+// newly created one for the same token. The failed obligations say Authorize
+// writes v.baseWorld / v.baseSymbols (the state Reset restores): a request that
+// is accepted leaves its facts behind for every later request.
+func TestGovcReplayResetLeak(t *testing.T) {
+	tok, pub := govcToken(t)
+	allowIfOp := Policy{Kind: PolicyKindAllow, Queries: []Rule{{
+		Head: Predicate{Name: "allow"},
+		Body: []Predicate{{Name: "operation", IDs: []Term{String("read")}}},
+	}}}
+	run := func(a Authorizer, withFact bool) error {
+		if withFact {
+			a.AddFact(Fact{Predicate: Predicate{Name: "operation", IDs: []Term{String("read")}}})
+		}
+		a.AddPolicy(allowIfOp)
+		return a.Authorize()
+	}
+	used, err := tok.Authorizer(pub)
+	if err != nil {
+		t.Fatalf("authorizer: %v", err)
+	}
+	if err := run(used, true); err != nil {
+		fmt.Printf("NOT-REPRODUCED: first request (with operation(\"read\")) was refused: %v\n", err)
+		return
+	}
+	used.Reset()
+	afterReset := run(used, false)
+	fresh, _ := tok.Authorizer(pub)
+	fromFresh := run(fresh, false)
+	if (afterReset == nil) != (fromFresh == nil) {
+		fmt.Printf("REPRODUCED: request 1 adds operation(\"read\") and is accepted; after Reset, request 2 (no operation fact, policy 'allow if operation(\"read\")') returns %v on the reset authorizer but %v on a new authorizer for the same token\n", afterReset, fromFresh)
+		t.Fail()
+		return
+	}
+	fmt.Println("NOT-REPRODUCED: reset authorizer and new authorizer agree")
+}
